@@ -63,6 +63,15 @@ add("C08", "other",
     "against the same history without the failures; every later statement must agree. The failing histories are also "
     "compared with Sem and the VM model.", COMMON_NOTE, DIFF)
 
+add("C12", "other",
+    "Partial. Proved in Coq on the definitional semantics (PropC12.v): increment forms are the same computation, a one-statement "
+    "block / true if is its body, negated if swaps the branches, a condition must be boolean in if, if-else and while. The "
+    "compiled side is C01's open statement. Decided each run by metamorphic testing on the real code: every generated expression "
+    "is placed in about 45 positions (used/discarded, function tail, loop body, call argument, array element, assignment, return, "
+    "yield, generator, typed identity embeddings at several operator depths, condition positions) and value/output/error class "
+    "compared pairwise, plus statement-form equivalences (x=x+1 / x=1+x / t=x;x=t+1, e op e vs t op t, if !c A else B vs if c B else A).",
+    COMMON_NOTE, "metamorphic testing of the Go code across code-generation contexts + Coq theorems on the semantics + model correspondence")
+
 PENDING_REASON = "check under construction in this round (the technique applies; see DESIGN.md section 6); not yet claimed"
 
 
